@@ -46,23 +46,32 @@ class Node(
     """Returns a tuple of the stringified fields of self as a sort key."""
     return tuple((x.__class__.__name__, str(x)) for x in self)
 
+  def _SortName(self):
+    """The class name used for ordering nodes of different classes.
+
+    Overridden by classes that are merely a different representation of another
+    node class (a resolved ClassType vs. an unresolved NamedType), so that the
+    canonical order of an AST does not depend on which representation it uses.
+    """
+    return self.__class__.__name__
+
   def __lt__(self, other):
     """Smaller than other node? Define so we can have deterministic ordering."""
     if self is other:
       return False
-    elif self.__class__ is other.__class__:
+    elif self._SortName() == other._SortName():
       return tuple.__lt__(self._ToTuple(), other._ToTuple())
     else:
-      return self.__class__.__name__ < other.__class__.__name__
+      return self._SortName() < other._SortName()
 
   def __gt__(self, other):
     """Larger than other node? Define so we can have deterministic ordering."""
     if self is other:
       return False
-    elif self.__class__ is other.__class__:
+    elif self._SortName() == other._SortName():
       return tuple.__gt__(self._ToTuple(), other._ToTuple())
     else:
-      return self.__class__.__name__ > other.__class__.__name__
+      return self._SortName() > other._SortName()
 
   def __le__(self, other):
     return self == other or self < other
